@@ -139,6 +139,24 @@ pub fn run(ctx: &Ctx, rep: &mut Report) {
         }
     }
     rep.bound("cfg", J::s(format!("[1..{nmax}]^2 on nosimd, [1..{amax}]^2 on all engines (basis-in-slots data up to k=24, dense above)")));
+    {
+        let grid: Vec<usize> = if ctx.thorough() {
+            vec![1, 2, 3, 5, 8, 9, 16, 17, 31, 32, 33, 63, 64, 65, 127, 128, 129, 255, 256, 257, 511, 512, 513, 1023, 1024, 1025, 2047, 2048, 2049, 4095, 4096, 4097, 8191, 8192, 8193]
+        } else {
+            vec![1, 3, 8, 17, 32, 33, 64, 65, 127, 128, 129, 255, 256, 257, 512, 513, 1024, 1025, 2048, 2049, 4096, 4097]
+        };
+        for (gi, &k) in grid.iter().enumerate() {
+            for (gj, &r) in grid.iter().enumerate() {
+                if (k <= nmax && r <= nmax) || !spec_supports(Kind::Def, k, r) {
+                    continue;
+                }
+                let eng = if (gi + gj) % 2 == 0 || !engines_fast().contains(&"avx2") { "nosimd" } else { "avx2" };
+                let eng = if (gi * 7 + gj) % 5 == 0 { "default" } else { eng };
+                cases.push(Kv::new().with("what", "cfg").with("eng", eng).with("k", k).with("r", r).with("data", if k + r > 3000 { "dense:2" } else { "dense:64" }).with("seed", seed));
+            }
+        }
+        rep.bound("grid", J::s(format!("{grid:?} squared (configurations beyond the dense square), nosimd/avx2/default in rotation")));
+    }
     if ctx.thorough() {
         for n in 1..=15u32 {
             for a in [-1i64, 0, 1] {
